@@ -169,6 +169,11 @@ def store_protocol(ctx: Ctx, prefix: str, which: set[str]) -> None:
         for nt in (*notify_new, *notify_store):
             ok = cfg.dominates(pn, cfg.node_of(nt))
             ctx.ob(f"{prefix}-pending-before-notify", con, ok, "a point must be marked pending before listeners (the backup export) are notified, otherwise the export misses it", node=nt)
+        # the store listeners (the backup export when it is made at each function call) run before the new-iteration
+        # listeners: those evaluate the observables, i.e. execute disciplines, and a crash there must find the value
+        # just stored already in the file
+        ok = not cfg.reachable(cfg.node_of(notify_new[0]), cfg.node_of(notify_store[0])) and cfg.reachable(cfg.node_of(notify_store[0]), cfg.node_of(notify_new[0]))
+        ctx.ob(f"{prefix}-export-before-new-iteration", con, ok, "the store listeners (backup export) must be notified before the new-iteration listeners: the latter execute disciplines (observables), and if the process dies there the value that was just stored is not in the backup", node=notify_new[0], stmt="store listeners before new-iteration listeners")
         ok = cfg.must_pass(cfg.entry, {pn})
         ctx.ob(f"{prefix}-pending-always", con, ok, "every store must mark its point pending for the next incremental export", node=pend[0], stmt="add_pending_array on every path")
         for nt in (*notify_new, *notify_store):
